@@ -32,6 +32,15 @@ def noisy(kind, base):
     return base + (SEP + n if n else "")
 
 
+def noisy_step(s, base):
+    """cfg["noise"]["step_mod"] = k: only steps whose id is a multiple of k carry the step noise (a background then
+    has steps with and steps without a placeholder)"""
+    k = NOISE.get("step_mod")
+    if k and s["id"] % k:
+        return base
+    return noisy("step", base)
+
+
 # An undefined step is written in several ways: text that resembles no definition, and near misses of the
 # registered patterns "<kind> {n:d}" (wrong letter case, longer word, extra word) -- the id stays the last word.
 UNDEF_FORMS = ["undefined %d", "Pass %d", "undefined %d", "FAIL %d", "passes %d", "pass x %d", "undefined %d", "eRROR %d"]
@@ -39,8 +48,8 @@ UNDEF_FORMS = ["undefined %d", "Pass %d", "undefined %d", "FAIL %d", "passes %d"
 
 def step_name(s):
     if s["kind"] == "undefined":
-        return noisy("step", UNDEF_FORMS[s["id"] % len(UNDEF_FORMS)] % s["id"])
-    return noisy("step", "%s %d" % (s["kind"], s["id"]))
+        return noisy_step(s, UNDEF_FORMS[s["id"] % len(UNDEF_FORMS)] % s["id"])
+    return noisy_step(s, "%s %d" % (s["kind"], s["id"]))
 
 
 def render_steps(steps, ind, out):
@@ -146,7 +155,8 @@ def run_program(prog, extra_formatters=None, reporters=None, config_hook=None, w
 
     cfg = prog["cfg"]
     noise = cfg.get("noise") or {}
-    NOISE.update({"F": noise.get("feature", ""), "S": noise.get("scenario", ""), "step": noise.get("step", "")})
+    NOISE.update({"F": noise.get("feature", ""), "S": noise.get("scenario", ""), "step": noise.get("step", ""),
+                  "step_mod": noise.get("step_mod")})
     msg_noise = noise.get("message", "")
     log, fmt = [], []
     faults = set((h, str(k)) for h, k in cfg.get("faults", []))
